@@ -65,6 +65,25 @@ impl Runner {
         o
     }
 
+    /// the process "dies": the files as they are on disk right now are copied and the copy is opened (recovery runs);
+    /// for the specification this is a reopen - open transactions end, everything acknowledged stays
+    pub fn crash_reopen(&mut self, cfg: DBConfig) -> Out {
+        let generation = self.stmts;
+        let new_dir = self.dir.join(format!("crash-{generation}"));
+        let _ = std::fs::create_dir_all(&new_dir);
+        let old = self.dbfile.clone();
+        let old_log = old.parent().unwrap().join("axmos.log");
+        let _ = std::fs::copy(&old, new_dir.join("db.axm"));
+        let _ = std::fs::copy(&old_log, new_dir.join("axmos.log"));
+        let _ = self.eng.close();
+        self.open_sessions.clear();
+        self.dbfile = new_dir.join("db.axm");
+        let o = self.eng.open(&self.dbfile, cfg);
+        self.t.ev(json!({"ev": "reopen", "crash": true, "cfg": cfg_json(&cfg), "out": o.json()}));
+        self.note(&o);
+        o
+    }
+
     fn fresh_tx(&mut self) -> u64 {
         self.next_tx += 1;
         self.next_tx - 1
